@@ -76,8 +76,14 @@ def gen_world_explicit(rng, sound=True):
                     lo, hi, tlo, thi = lo + rng.range(0, 2), hi - rng.range(0, 2), tlo + rng.range(0, 3), thi - rng.range(0, 3)
                 st = [lo - rng.choice([0, 0, 1, 5]), hi + rng.choice([0, 0, 1, 5]), tlo - rng.choice([0, 0, 2]), thi + rng.choice([0, 0, 2])]
                 st = [v if rng.chance(2, 3) else None for v in st]
-                lines.append("seg %d %d %s %s %s %s %s" % (topic, part, opt(st[0]), opt(st[1]), opt(st[2]), opt(st[3]),
-                                                           ",".join("%d:%d" % r for r in recs) or "-"))
+                if rng.chance(1, 4):
+                    st[2] = st[3] = None          # no timestamp statistics at all (time index not built yet)
+                # upload time of the object: unrelated to the producer-supplied record timestamps — before, between,
+                # after them, or the zero time
+                lm = rng.choice([None, tlo - rng.range(1, 5), tlo, (tlo + thi) // 2, thi, thi + rng.range(1, 5)])
+                lm = None if lm is None else max(lm, 1)
+                lines.append("seg %d %d %s %s %s %s %s %s" % (topic, part, opt(st[0]), opt(st[1]), opt(st[2]), opt(st[3]), opt(lm),
+                                                              ",".join("%d:%d" % r for r in recs) or "-"))
                 info.append((topic, part, recs))
     if rng.chance(1, 3):   # interleave listing order a bit (the server does not rely on it)
         head, body = lines[:1], lines[1:]
@@ -95,11 +101,14 @@ def gen_world_objects(rng):
         for part in range(rng.range(1, 3)):
             for base, recs in gen_partition(rng, rng.range(1, 4)):
                 flags = "kim" if rng.chance(5, 6) else rng.choice(["ki", "km", "im", "k"])
-                lines.append("obj %d %d %d %s %s" % (topic, part, base, flags, ",".join("%d:%d" % r for r in recs) or "-"))
+                tss = [r[1] for r in recs] or [10]
+                lm = rng.choice([None, min(tss) - 2, min(tss), (min(tss) + max(tss)) // 2, max(tss) + 3])
+                lm = None if lm is None else max(lm, 1)
+                lines.append("obj %d %d %d %s %s %s" % (topic, part, base, flags, opt(lm), ",".join("%d:%d" % r for r in recs) or "-"))
                 if flags == "kim":
                     info.append((topic, part, recs))
-    ti = rng.chance(1, 2)
-    lines.append("list %d" % (1 if ti else 0))
+    # the real lister stack of discovery.New: time index on/off, manifest lister on/off, listing cache TTL (0 = off)
+    lines.append("list %d %d %d" % (1 if rng.chance(1, 2) else 0, 1 if rng.chance(1, 3) else 0, rng.choice([60, 60, 0])))
     return lines, info
 
 
@@ -130,6 +139,8 @@ def gen_queries(rng, info, n):
             order = rng.choice(["asc", "desc"])
         out.append("select %d part=%s omin=%s omax=%s tmin=%s tmax=%s limit=%s tail=%s order=%s" % (
             topic, opt(part), opt(omin), opt(omax), opt(tmin), opt(tmax), opt(limit), opt(tail), order))
+        if rng.chance(1, 2):
+            out.append(out[-1])            # the same query again: listing caches (cachedLister, manifest TTL) are hit
     return out
 
 
@@ -160,7 +171,7 @@ def stats_sound(list_line, info_by_key):
     if list_line == "list -":
         return None
     for ent in list_line[5:].split(";"):
-        t, p, base, mn, mx, tmn, tmx = ent.split("/")
+        t, p, base, mn, mx, tmn, tmx, _lm = ent.split("/")
         recs = info_by_key.get((int(t), int(p), int(base)), [])
         for off, ts in recs:
             if (mn != "-" and off < int(mn)) or (mx != "-" and off > int(mx)) or (tmn != "-" and ts < int(tmn)) or (tmx != "-" and ts > int(tmx)):
@@ -180,7 +191,7 @@ def run_lines(ck, binary, lines, tag):
 
 CORPUS = [
     # boundary: omin equals a segment's MaxOffset, omax equals the next MinOffset; tie at the ORDER BY cut
-    ["reset", "seg 0 0 0 2 10 12 0:10,1:12,2:11", "seg 0 0 3 - - - 3:12,4:13", "seg 0 1 - - - 50 0:50", "seg 1 0 0 - - - 0:1",
+    ["reset", "seg 0 0 0 2 10 12 - 0:10,1:12,2:11", "seg 0 0 3 - - - 20 3:12,4:13", "seg 0 1 - - - 50 - 0:50", "seg 1 0 0 - - - - 0:1",
      "select 0 part=- omin=2 omax=- tmin=- tmax=- limit=- tail=- order=-",
      "select 0 part=- omin=- omax=3 tmin=- tmax=- limit=- tail=- order=-",
      "select 0 part=0 omin=- omax=- tmin=12 tmax=12 limit=- tail=- order=-",
@@ -190,12 +201,29 @@ CORPUS = [
      "select 0 part=- omin=- omax=- tmin=- tmax=- limit=1 tail=- order=asc",
      "select 0 part=1 omin=- omax=- tmin=- tmax=50 limit=- tail=- order=-",
      "select 0 part=- omin=5 omax=- tmin=- tmax=- limit=- tail=- order=-"],
-    ["reset", "obj 0 0 0 kim 0:10,1:12,2:11", "obj 0 0 3 kim 3:12,4:13", "obj 0 1 0 kim 0:50", "obj 1 0 0 ki 0:1",
-     "obj 1 0 5 km 5:1", "obj 1 1 7 kim -", "list 1",
+    # a segment without timestamp statistics, uploaded (LastModified 5) before its records' producer timestamps (10, 12):
+    # a lower time bound between the two must not skip it
+    ["reset", "seg 0 0 - - - - 5 0:10,1:12", "seg 0 0 2 - - - 11 2:12,3:30",
+     "select 0 part=- omin=- omax=- tmin=11 tmax=- limit=- tail=- order=-",
+     "select 0 part=- omin=- omax=- tmin=6 tmax=- limit=- tail=- order=-",
+     "select 0 part=- omin=- omax=- tmin=13 tmax=40 limit=- tail=- order=-"],
+    ["reset", "obj 0 0 0 kim 50 0:10,1:12,2:11", "obj 0 0 3 kim - 3:12,4:13", "obj 0 1 0 kim 5 0:50", "obj 1 0 0 ki - 0:1",
+     "obj 1 0 5 km - 5:1", "obj 1 1 7 kim - -", "list 1 0 60",
      "select 0 part=- omin=2 omax=2 tmin=- tmax=- limit=- tail=- order=-",
+     "select 0 part=- omin=4 omax=- tmin=- tmax=- limit=- tail=- order=-",
      "select 0 part=- omin=4 omax=- tmin=- tmax=- limit=- tail=- order=-",
      "select 0 part=- omin=- omax=- tmin=13 tmax=13 limit=- tail=- order=-",
      "select 0 part=- omin=- omax=- tmin=10 tmax=10 limit=- tail=- order=-"],
+    # listing cache on, no time index: the second identical query is served from the cached (cloned) listing
+    ["reset", "obj 0 0 0 kim 5 0:10,1:12,2:14,3:15", "obj 0 0 4 kim 7 4:16,5:17,6:18", "list 0 0 60",
+     "select 0 part=- omin=2 omax=- tmin=- tmax=- limit=- tail=- order=-",
+     "select 0 part=- omin=2 omax=- tmin=- tmax=- limit=- tail=- order=-",
+     "select 0 part=- omin=- omax=- tmin=13 tmax=- limit=- tail=- order=-",
+     "select 0 part=- omin=1 omax=2 tmin=- tmax=- limit=- tail=- order=-"],
+    ["reset", "obj 0 0 0 kim 5 0:10,1:12,2:14,3:15", "obj 0 0 4 kim 7 4:16,5:17,6:18", "list 1 1 60",
+     "select 0 part=- omin=2 omax=- tmin=- tmax=- limit=- tail=- order=-",
+     "select 0 part=- omin=2 omax=- tmin=- tmax=- limit=- tail=- order=-",
+     "select 0 part=- omin=5 omax=- tmin=17 tmax=- limit=- tail=- order=-"],
 ]
 
 
@@ -207,8 +235,10 @@ def run(ck):
     quick = ck.quick()
     ck.cov["rule"] = ("worlds = 1-2 topics x 1-3 partitions x 1-4 segments (contiguous offsets, gaps, empty segments, noisy "
                       "timestamps); statistics explicit (each of the four present/absent, tight or slack; a separate unsound "
-                      "stream for correspondence only) or derived by the real S3 lister (+ time-index build) from object sets "
-                      "with incomplete segments; 12 queries per world with bounds at and next to every offset / timestamp, "
+                      "stream for correspondence only; segments without timestamp statistics carry a LastModified before / between / "
+                      "after their record timestamps) or derived by the real discovery.New lister stack (s3Lister, time index, "
+                      "manifest lister, cachedLister with TTL 60 s or off) over an in-process S3 endpoint from object sets with "
+                      "incomplete segments; 12 queries per world, half of them issued twice so that listing caches are hit, with bounds at and next to every offset / timestamp, "
                       "LIMIT/TAIL/ORDER BY; non-trivial = at least one segment skipped or one row filtered and at least one row "
                       "returned; distinct = distinct (world, query) texts")
     worlds = []
@@ -231,16 +261,27 @@ def run(ck):
     for kind, ls, sound in worlds:
         spans.append((len(lines), len(lines) + len(ls), kind, sound))
         lines += ls
+    ck.log("harness built, %d lines" % len(lines))
     impl, crash = run_lines(ck, binary, lines, "all")
     if crash:
         ck.broke("implementation harness did not answer every line", crash)
         return
+    ck.log("implementation answered")
+    # one interpreter run: every `select` line is followed by its `direct` (specification) twin
     mfn = ck.path("model_in.txt")
-    open(mfn, "w").write("\n".join(lines) + "\n")
-    model = ck.lean_run("C36", mfn)
-    sfn = ck.path("spec_in.txt")
-    open(sfn, "w").write("\n".join(("direct" + l[6:]) if l.startswith("select ") else l for l in lines) + "\n")
-    spec = ck.lean_run("C36", sfn)
+    both = []
+    for l in lines:
+        both.append(l)
+        if l.startswith("select "):
+            both.append("direct" + l[6:])
+    open(mfn, "w").write("\n".join(both) + "\n")
+    outb = ck.lean_run("C36", mfn)
+    model, spec, it = [], [], iter(outb)
+    for l in lines:
+        m = next(it, None)
+        model.append(m)
+        spec.append(next(it, None) if l.startswith("select ") else m)
+    ck.log("model and spec answered")
     if len(model) != len(lines) or len(spec) != len(lines):
         ck.broke("model driver did not answer every line", "%d %d / %d" % (len(model), len(spec), len(lines)))
         return
@@ -251,7 +292,7 @@ def run(ck):
         for l in world:
             f = l.split()
             if f[0] == "obj" and f[4] == "kim":
-                objs[(int(f[1]), int(f[2]), int(f[3]))] = [tuple(int(x) for x in r.split(":")) for r in f[5].split(",")] if f[5] != "-" else []
+                objs[(int(f[1]), int(f[2]), int(f[3]))] = [tuple(int(x) for x in r.split(":")) for r in f[6].split(",")] if f[6] != "-" else []
         for i in range(a, b):
             l, io, mo, so = lines[i], impl[i], model[i], spec[i]
             if l.startswith("list "):
@@ -309,7 +350,7 @@ def replay(ck, path):
     for l in lines:
         f = l.split()
         if f[0] == "obj" and f[4] == "kim":
-            objs[(int(f[1]), int(f[2]), int(f[3]))] = [tuple(int(x) for x in r.split(":")) for r in f[5].split(",")] if f[5] != "-" else []
+            objs[(int(f[1]), int(f[2]), int(f[3]))] = [tuple(int(x) for x in r.split(":")) for r in f[6].split(",")] if f[6] != "-" else []
     for l, io, so in zip(lines, impl, spec):
         print("  %s -> %s" % (l[:90], io[:120]))
         if l.startswith("list "):
